@@ -255,11 +255,31 @@ def compare_session(line, h_ans, m_ans, debug_build=False, ignore_ops=()):
     L = max(len(H), len(M3), len(M1))
     live3 = True   # still comparing against the L3 model
     live1 = True   # still comparing against the reference
+    peeked = 0     # bits delivered by the most recent peek and not yet skipped
     for i in range(L):
         h = H[i] if i < len(H) else '<none>'
         m3 = M3[i] if i < len(M3) else '<none>'
         m1 = M1[i] if i < len(M1) else '<none>'
         opk = ops[i].split()[0] if i < len(ops) else '?'
+        # `skip_bits_after_peek(n)` is only defined right after a `peek_bits` that delivered at least n
+        # bits (the trait documents it as an internal optimisation of the table decoders): a scenario
+        # that uses it otherwise (the shrinker can produce one by deleting the peek) is not compared
+        # from there on
+        if opk == 'rsp':
+            try:
+                k = int(ops[i].split()[1])
+            except (IndexError, ValueError):
+                k = 0
+            if k > peeked:
+                break
+            peeked -= k
+        elif opk == 'rp':
+            try:
+                peeked = int(ops[i].split()[1]) if (h.isdigit() or h.startswith('x')) else 0
+            except (IndexError, ValueError):
+                peeked = 0
+        elif opk not in ('pos', 'stat', 'wb', 'wu', 'wf', 'wc', 'wio', 'wd'):
+            peeked = 0
         if opk in ignore_ops:
             continue
         if not live3 and not live1:
